@@ -147,9 +147,55 @@ def check_one(out, tag, sp, ann, v0, route, back_vec, back_desc, together=None):
     return True
 
 
+def load_after_change(out):
+    """loading never changes what the ORIGINAL accepts — also when the original has changed since the dump: a payload
+    taken while the annotation was checking, the annotation then made transparent by the library itself (old-style
+    decoration of a generator function that returns it: known finding F2, about the annotation object), the payload loaded
+    afterwards in the same process by every route"""
+    import typing
+
+    import typeguard
+    from jaxtyping import Float, Shaped, jaxtyped
+
+    for k, mk in enumerate((lambda: Float[usercats.Duck, "lc0 2"], lambda: Shaped[Float[usercats.Duck, "lc1"], "3"])):
+        for route, fn in ROUTES.items():
+            ann = mk()
+            v_start = vector(ann)
+            try:
+                if route.startswith("cloudpickle"):
+                    import cloudpickle
+
+                    blob, loads = cloudpickle.dumps(ann), cloudpickle.loads
+                elif route.startswith("pickle"):
+                    blob, loads = pickle.dumps(ann), pickle.loads
+                else:
+                    continue
+            except BaseException:  # noqa: BLE001
+                continue
+
+            @jaxtyped
+            @typeguard.typechecked
+            def gen(n: int) -> typing.Iterator[ann]:
+                yield None
+
+            v_changed = vector(ann)
+            try:
+                back = loads(blob)
+            except BaseException as e:  # noqa: BLE001
+                back = "LOAD-" + type(e).__name__
+            v_after = vector(ann)
+            out.case(("load-after-change", k, route), v_changed != v_start, sample={"route": route, "changed_by_decoration": v_changed != v_start, "changed_by_load": v_after != v_changed})
+            if v_after != v_changed:
+                out.violation(f"load-after-change:{route}", f"an annotation dumped via {route}, then changed (it became the return annotation of an old-style decorated generator "
+                              f"function), then the OLD payload loaded: the load changed what the original accepts ({v_changed[:40]} -> {v_after[:40]} on the probe values)",
+                              {"load_after_change": route})
+                break
+
+
 def run(tier, seed, out, drv, facts):
     rng = Rng(seed, "C20")
     thorough = tier == "thorough"
+    load_after_change(out)
     carries = bool(facts["make"]["reducerCarriesDtypes"])
     specs = gen_specs(rng, thorough)
     built = []
@@ -231,6 +277,9 @@ def run(tier, seed, out, drv, facts):
 
 
 def replay(rep, out, drv, facts):
+    if "load_after_change" in rep:
+        load_after_change(out)
+        return
     sp = rep["spec"]
     ann = build(sp)
     v0 = vector(ann)
